@@ -1,3 +1,4 @@
+import WS.Lemmas.RoleGeneric
 import WS.Lemmas.ReaderRejects
 import WS.Lemmas.ReaderDecodes
 import WS.Lemmas.ReaderLift
@@ -108,6 +109,31 @@ theorem accepted_frame_adds_length (c : Conn) (hc : AtBoundary c) (b0 b1 : UInt8
     ∃ res c', advanceFrame c = (res, c') ∧ (∀ e, res ≠ .error e) ∧
       c'.r.length = sumBase c (parseHdr b0 b1) + (parseHdr b0 b1).len7 := by
   first | exact ReaderMore.accepted_frame_adds_length .. | (apply ReaderMore.accepted_frame_adds_length <;> assumption)
+
+open WS.Codec WS.ReaderDecodes WS.ReaderMore WS.RoleGeneric in
+/-- limit_refuses for either role (masked or unmasked frames), any of the three length encodings below
+    2^16, first frame or continuation -/
+theorem limit_refuses_any_role (c : Conn) (hc : AtBoundary c) (hw : WHealthy c.w)
+    (op : Nat) (fin : Bool) (key : Key) (payload rest : Bytes) (hl : payload.length < 65536)
+    (hop : (c.r.final = true ∧ (op = 1 ∨ op = 2)) ∨ (c.r.final = false ∧ op = 0))
+    (hp : c.r.buf.pending = PFrame.enc c.r.isServer ⟨op, fin, key, payload⟩ ++ rest)
+    (hlim : 0 < c.r.limit) (hsum : 0 ≤ c.r.length) (hsmall : c.r.length < 2 ^ 62)
+    (hover : c.r.limit < (if op = 0 then c.r.length else 0) + payload.length) :
+    ∃ c', advanceFrame c = (.error .readLimit, c') ∧
+      c'.r.buf.pending = (if c.r.isServer then maskFrom key 0 payload else payload) ++ rest ∧
+      c'.r.hlog = c.r.hlog ∧
+      c'.w.wire = c.w.wire ++ closeFrameBytes c.w (closePayload 1009 []) ∧ c'.w.writeErr = some .closeSent := by
+  first | exact RoleGeneric.limit_refuses_any .. | (apply RoleGeneric.limit_refuses_any <;> assumption)
+
+open WS.Codec WS.ReaderDecodes WS.ReaderMore WS.RoleGeneric in
+theorem nextReader_over_limit_any_role (c : Conn) (hc : ReaderIdle c) (hi : CountInv c) (hw : WHealthy c.w)
+    (t : Nat) (ht : t = 1 ∨ t = 2) (fin : Bool) (key : Key) (payload rest : Bytes) (hl : payload.length < 65536)
+    (hp : c.r.buf.pending = PFrame.enc c.r.isServer ⟨t, fin, key, payload⟩ ++ rest)
+    (hlim : 0 < c.r.limit) (hover : c.r.limit < payload.length) :
+    ∃ c', nextReader c = (.err .readLimit, c') ∧ c'.r.readErr = some .readLimit ∧
+      c'.w.wire = c.w.wire ++ closeFrameBytes c.w (closePayload 1009 []) := by
+  first | exact RoleGeneric.nextReader_over_limit_any .. | (apply RoleGeneric.nextReader_over_limit_any <;> assumption)
+
 
 /-! ### non-vacuity -/
 section NonVacuity
